@@ -262,11 +262,195 @@ func wireVersion(v primitive.ProtocolVersion, rec *predRec) {
 	}
 }
 
+// ---- the wiring from the connection's configuration to its in-flight handler. The histories of C09/C10 build the
+// handler themselves with their own (maxInFlight, maxPending); here a REAL CqlClientConnection is configured through
+// CqlClient.MaxInFlight / MaxPending with the two different from each other, in both directions, and C09's and C10's
+// statements are judged on what is observable from outside:
+//
+//	C09  every stream id the peer sees is in 1..MaxInFlight and carried by one unanswered request only; exactly
+//	     MaxInFlight unanswered managed requests are accepted, the next is refused with an error (not blocked); after
+//	     all are answered MaxInFlight more are accepted;
+//	C10  a response of MaxPending pages that nobody reads before the last one has arrived is delivered completely, in
+//	     order, and completes the request without error.
+type wiringSession struct {
+	MaxInFlight int `json:"MaxInFlight"`
+	MaxPending  int `json:"MaxPending"`
+}
+
+func wiringOne(ws wiringSession, rec *predRec) {
+	ok := true
+	fail := func(kind, what string) {
+		ok = false
+		if len(rec.Failures) < 12 {
+			rec.Failures = append(rec.Failures, sockFailure{Kind: kind, What: fmt.Sprintf("connection with MaxInFlight %d, MaxPending %d: %s", ws.MaxInFlight, ws.MaxPending, what),
+				Case: map[string]interface{}{"wiring_session": ws}})
+		}
+	}
+	rec.Checked++
+	defer func() {
+		if ok {
+			rec.Distinct++
+		}
+	}()
+	v := primitive.ProtocolVersionDse2 // continuous paging needs a DSE version
+	n, p := ws.MaxInFlight, ws.MaxPending
+	addr := freeAddr()
+	server := client.NewCqlServer(addr, nil)
+	clt := client.NewCqlClient(addr, nil)
+	clt.MaxInFlight, clt.MaxPending = n, p
+	clt.ReadTimeout = 3 * time.Second
+	ctx, cancel := context.WithCancel(context.Background())
+	defer cancel()
+	if err := server.Start(ctx); err != nil {
+		fail("harness", "server start: "+err.Error())
+		return
+	}
+	defer func() { within(3*time.Second, func() { _ = server.Close() }) }()
+	var cc *client.CqlClientConnection
+	var sc *client.CqlServerConnection
+	var err error
+	if !within(8*time.Second, func() { cc, sc, err = server.BindAndInit(clt, ctx, v, client.ManagedStreamId) }) || err != nil {
+		fail("harness", fmt.Sprintf("bind and handshake: %v", err))
+		return
+	}
+	defer func() { within(3*time.Second, func() { _ = cc.Close(); _ = sc.Close() }) }()
+	// ---- C09: fill. Nobody answers; the peer only reads.
+	fill := func(round string) (reqs []client.InFlightRequest, wireIds []int16) {
+		var refusal error
+		for i := 0; i < n+3; i++ {
+			var r client.InFlightRequest
+			var err error
+			if !within(3*time.Second, func() { r, err = cc.Send(frame.NewFrame(v, client.ManagedStreamId, &message.Options{})) }) {
+				fail("send-blocked", fmt.Sprintf("%s: Send number %d did not return within 3s with %d requests unanswered", round, i+1, len(reqs)))
+				return
+			}
+			if err != nil {
+				refusal = err
+				break
+			}
+			reqs = append(reqs, r)
+		}
+		if len(reqs) > n {
+			fail("over-capacity", fmt.Sprintf("%s: %d managed requests accepted and unanswered at the same time, the limit is MaxInFlight = %d", round, len(reqs), n))
+		}
+		if len(reqs) < n {
+			fail("under-capacity", fmt.Sprintf("%s: only %d of MaxInFlight = %d managed requests were accepted although none of them was answered; the next was refused: %v", round, len(reqs), n, refusal))
+		}
+		within(5*time.Second, func() {
+			for len(wireIds) < len(reqs) {
+				f, err := sc.Receive()
+				if err != nil {
+					return
+				}
+				wireIds = append(wireIds, f.Header.StreamId)
+			}
+		})
+		if len(wireIds) != len(reqs) {
+			fail("harness", fmt.Sprintf("%s: the peer received %d of %d requests", round, len(wireIds), len(reqs)))
+		}
+		seen := map[int16]bool{}
+		for _, id := range wireIds {
+			if id < 1 || int(id) > n {
+				fail("id-out-of-bounds", fmt.Sprintf("%s: stream id %d on the wire, outside [1,%d] (ids seen by the peer: %v)", round, id, n, wireIds))
+			}
+			if seen[id] {
+				fail("duplicate-id", fmt.Sprintf("%s: stream id %d on the wire twice while unanswered (ids seen by the peer: %v)", round, id, wireIds))
+			}
+			seen[id] = true
+		}
+		return
+	}
+	answerAll := func(round string, reqs []client.InFlightRequest) {
+		for i := len(reqs) - 1; i >= 0; i-- {
+			if err := sc.Send(frame.NewFrame(v, reqs[i].StreamId(), &message.Supported{Options: map[string][]string{"CQL_VERSION": {"3.0.0"}}})); err != nil {
+				fail("harness", "peer send: "+err.Error())
+			}
+		}
+		for _, r := range reqs {
+			var f *frame.Frame
+			var err error
+			if !within(6*time.Second, func() { f, err = cc.Receive(r) }) || err != nil || f == nil {
+				fail("harness", fmt.Sprintf("%s: request with stream id %d did not receive its response: %v", round, r.StreamId(), err))
+			}
+		}
+	}
+	reqs, _ := fill("first fill")
+	answerAll("first fill", reqs)
+	reqs2, _ := fill("after every request was answered")
+	if len(reqs2) < n {
+		fail("recycling", fmt.Sprintf("after all %d requests were answered only %d new ones were accepted (MaxInFlight %d)", len(reqs), len(reqs2), n))
+	}
+	answerAll("second fill", reqs2)
+	if !ok || cc.IsClosed() {
+		// the C10 part below would only repeat what is already reported when the limits are wired wrongly; still run it
+	}
+	// ---- C10: a response of MaxPending pages, none read before the last has arrived
+	var r client.InFlightRequest
+	if !within(3*time.Second, func() {
+		r, err = cc.Send(frame.NewFrame(v, client.ManagedStreamId, &message.Query{Query: "paged", Options: &message.QueryOptions{Consistency: primitive.ConsistencyLevelOne}}))
+	}) || err != nil {
+		fail("harness", fmt.Sprintf("send of the paged query: %v", err))
+		return
+	}
+	var q *frame.Frame
+	if !within(5*time.Second, func() { q, err = sc.Receive() }) || err != nil {
+		fail("harness", fmt.Sprintf("peer did not receive the paged query: %v", err))
+		return
+	}
+	for pg := 1; pg <= p; pg++ {
+		page := frame.NewFrame(v, q.Header.StreamId, &message.RowsResult{Metadata: &message.RowsMetadata{ColumnCount: 0, ContinuousPageNumber: int32(pg), LastContinuousPage: pg == p}})
+		if err := sc.Send(page); err != nil {
+			fail("harness", "peer send page: "+err.Error())
+		}
+	}
+	if !within(4*time.Second, func() {
+		for !r.IsDone() {
+			time.Sleep(time.Millisecond)
+		}
+	}) {
+		fail("last-not-complete", fmt.Sprintf("response of %d pages: the request is not complete 4s after the peer wrote the last page (%d pages waiting)", p, len(r.Incoming())))
+	}
+	var pages []int32
+	for {
+		f, open := <-r.Incoming()
+		if !open {
+			break
+		}
+		if rows, isRows := f.Body.Message.(*message.RowsResult); isRows {
+			pages = append(pages, rows.Metadata.ContinuousPageNumber)
+		} else {
+			pages = append(pages, -1)
+		}
+		if len(pages) > p+2 {
+			break
+		}
+	}
+	if e := r.Err(); e != nil {
+		fail("delivery-failed", fmt.Sprintf("a response of %d = MaxPending pages, unread until the last one had arrived, was not delivered completely: pages received %v, request failed with: %v", p, pages, e))
+	} else {
+		want := make([]int32, p)
+		for i := range want {
+			want[i] = int32(i + 1)
+		}
+		if fmt.Sprint(pages) != fmt.Sprint(want) {
+			fail("wrong-pages", fmt.Sprintf("a response of %d = MaxPending pages: pages received %v, pages sent %v", p, pages, want))
+		}
+	}
+}
+
 func wireSessions(tier string) {
 	rec := predRec{Kind: "pred", Name: "wire-sessions (real client and server connection, v3/v4/v5/DSE1/DSE2: three distinguishable responses in every order, header-only response, event interleaved, coalesced segment; exercised, not proved)"}
 	for _, v := range []primitive.ProtocolVersion{primitive.ProtocolVersion3, primitive.ProtocolVersion4, primitive.ProtocolVersion5, primitive.ProtocolVersionDse1, primitive.ProtocolVersionDse2} {
 		wireVersion(v, &rec)
 	}
-	_ = tier
 	hlib.Emit(rec)
+	wiring := []wiringSession{{2, 5}, {5, 2}, {1, 3}, {3, 1}}
+	if tier == "thorough" {
+		wiring = append(wiring, wiringSession{1, 1}, wiringSession{4, 4}, wiringSession{2, 10}, wiringSession{10, 2}, wiringSession{7, 3}, wiringSession{3, 7})
+	}
+	wrec := predRec{Kind: "pred", Name: "wiring-sessions (real client connection with MaxInFlight != MaxPending in both directions: stream ids on the wire in 1..MaxInFlight, exactly MaxInFlight unanswered requests, recycling, a response of MaxPending unread pages; exercised, not proved)"}
+	for _, ws := range wiring {
+		wiringOne(ws, &wrec)
+	}
+	hlib.Emit(wrec)
 }
